@@ -393,10 +393,15 @@ ADDENDA3 = {
            "transpose of mapping the rollout, entry by entry and as whole arrays, with and without include_init; shapes; entry (t, b) = "
            "stepper^[t(+1)] batch[b]; member b depends only on batch[b] (and on its own aux / its own column of a time-major aux sequence); "
            "repeat of the mapped stepper = map of repeat; constant-aux and aux-sequence variants with the aux axes exchanged.",
+    "C07": " ON THE ASSEMBLED REGENERATED STEPS (Properties/C07_assembled.lean): the whole step of GeneralLinearStepper, Advection, Diffusion, "
+           "AdvectionDiffusion, Dispersion, HyperDiffusion (all constructor arguments) and every n-fold rollout is a C-linear map of the whole "
+           "spectrum and its own linearisation (step(u+h) - step(u) = step(h)), entrywise exp(dt*symbol) (diagonal Jacobian); with the "
+           "regenerated zero nonlinear function this holds for every order; order 0 is linear for any nonlinear function.",
     "C19": " ON THE ASSEMBLED REGENERATED STEPS (Properties/C19_assembled.lean): the zero state is fixed by every order whenever N(0) = 0, for "
            "every symbol and contour, hence by thirteen regenerated stepper classes for all constructor arguments; polynomial family: zero "
            "is fixed when c0 = 0 (converse only partial); at lambda = 0 exactly exp_term = half_exp_term = 1, no closed form is evaluated at "
-           "zero, and all fourteen stored coefficients are within 1.7e-12*|dt| of dt*phi_k(0).",
+           "zero, and all fourteen stored coefficients are within 1.7e-12*|dt| of dt*phi_k(0). Ten more classes (NS vorticity, Fisher-KPP, the "
+           "Normalized / Difficulty wrappers) in Properties/C19_assembled2.lean.",
 }
 
 
